@@ -76,7 +76,9 @@ def masked(dump):
     out = copy.deepcopy(dump)
     for r in out.get('managed_objects', []):
         if isinstance(r.get('value'), str):
-            r['value'] = len(r['value'])
+            r['value'] = '<key material>'
+    for t in out:
+        out[t].sort(key=lambda r: repr(sorted(r.items())))
     return out
 
 
@@ -108,7 +110,8 @@ def catalogue(info):
         ('decrypt', [kdrv.decrypt('1', cp, b'\x07' * 32, iv=b'\x01' * 16)]),
         ('sign', [kdrv.sign(info['private'], sp, b'data')]),
         ('signature_verify', [kdrv.signature_verify(info['public'], sp, b'data', b'\x00' * 128)]),
-        ('mac', [kdrv.mac(cattrs.UniqueIdentifier('1'), mp, cobjects.Data(b'data'))]),
+        ('mac', [(E.Operation.MAC, payloads.MACRequestPayload(unique_identifier=cattrs.UniqueIdentifier('1'),
+                                                               cryptographic_parameters=mp, data=cobjects.Data(b'data')))]),
         ('derive_key', [kdrv.derive_key(['1'], params=None)]),
         ('modify_attribute', [kdrv.modify_attribute_v1('1', kdrv.attr('NAME', kdrv.name_value('k1b'), 0))]),
         ('delete_attribute', [kdrv.delete_attribute_v1('1', 'Name', 0)]),
@@ -393,8 +396,17 @@ class Runner:
         return obs
 
 
+def local_findings(ctx):
+    """findings.d/C12.json is merged into known_findings.json by the integrator; until then read it directly."""
+    p = os.path.join(os.path.dirname(os.path.dirname(os.path.abspath(__file__))), 'findings.d', ctx.prop + '.json')
+    if os.path.exists(p):
+        have = {f.get('id') for f in ctx.findings}
+        ctx.findings += [f for f in json.load(open(p)) if f.get('id') not in have and f.get('property') == ctx.prop]
+
+
 def run(ctx):
     quick = ctx.tier == 'quick'
+    local_findings(ctx)
     ctx.cov['rule'] = (
         'one case = one scripted connection against the real KmipSession with a real engine behind it: '
         '(a) every catalogue request (26 operations incl. batches and engine-unsupported ones, 7 Register types) under every '
@@ -467,7 +479,7 @@ def run(ctx):
                 if same:
                     try:
                         ea, eb = sessdrv.check_response_envelope(fa['sent'][0]), sessdrv.check_response_envelope(fb['sent'][0])
-                        same = ea == eb and len(fa['sent'][0]) == len(fb['sent'][0])
+                        same = ea == eb
                     except sessdrv.TTLVError:
                         same = fa['sent'] == fb['sent']
                 if not same:
@@ -505,7 +517,8 @@ def run(ctx):
                                   'the answers depend on how the transport chunks the stream')
         big = kdrv.Engine.build(None, [kdrv.register(kdrv.OT.OPAQUE_DATA, kdrv.secret_for(kdrv.OT.OPAQUE_DATA, b'\x5a' * (5000 if quick else 70000)))])
         bigb = sessdrv.encode_request(big, (1, 2))
-        longs = [bigb + g0, g0 + bigb + g0, b''.join(x[3] for x in valid[:10])]
+        idem = ('get', 'get_missing', 'get_attributes', 'get_attribute_list', 'query', 'discover_versions', 'check', 'locate_name')
+        longs = [bigb + g0, g0 + bigb + g0, b''.join(x[3] for x in valid if x[0] in idem and x[1] in ((1, 0), (1, 4), (2, 0)))]
         for s in longs:
             ref = None
             for _ in range(6 if quick else 30):
